@@ -8,6 +8,7 @@ use crate::engine_in::{self, values};
 use crate::real;
 use crate::refimpl::attrs::{Kind, ALL_KINDS};
 use crate::refimpl::wire::{self, Creds};
+use crate::viol;
 use rayon::prelude::*;
 use serde_json::json;
 use stun_types::attribute::*;
@@ -173,6 +174,20 @@ fn inspect(acc: &mut Acc, case: &Case, buf: &[u8], sub: &str) {
 pub fn judge(case: &Case, acc: &mut Acc) {
     let buf = &case.data;
     match case.op.as_str() {
+        "stackprobe" => {
+            // the probe family in a child process, on a thread whose stack has args[0] KiB
+            let kib = case.args[0] as usize;
+            acc.evaluations += 1;
+            acc.validated += 1;
+            match stack_probe_child(kib) {
+                Ok(()) => acc.outcome("stack probe completed"),
+                Err(e) if kib >= STACK_BOUND_KIB => {
+                    acc.outcome("VIOLATION: stack exhausted");
+                    viol!(acc, P, "stack-exhaustion", case, format!("decoding and inspecting the probe family on a thread with a {kib} KiB stack kills the process (the unchanged library completes it on 16 KiB; the smallest default thread stack of a mainstream C library is musl's 128 KiB)"), "completes", e);
+                }
+                Err(_) => acc.outcome("stack probe: below the bound, exhausted (observation only)"),
+            }
+        }
         "entry" => {
             let accepted = probe!(acc, case, "Message::from_bytes", Message::from_bytes(buf).is_ok());
             probe!(acc, case, "Message::try_from", Message::try_from(&buf[..]).is_ok());
@@ -274,6 +289,10 @@ pub fn judge(case: &Case, acc: &mut Acc) {
             });
             acc.outcome(if ok == Some(true) { "typed decode: accepted" } else { "typed decode: refused" });
         }
+        "reason" => {
+            let code = case.args[0] as u16;
+            probe!(acc, case, "ErrorCode::default_reason_for_code", ErrorCode::default_reason_for_code(code).len());
+        }
         other => panic!("harness: unknown C01 op {other}"),
     }
 }
@@ -284,8 +303,46 @@ fn judge_w(case: &Case, acc: &mut Acc) {
 }
 
 fn large_family(ctx: &Ctx) -> Vec<Case> {
+    large_family_tid((ctx.seeded(1) as u128) & ((1u128 << 96) - 1))
+}
+
+/// The cases of the stack probe (`vcheck stackprobe <KiB>`, run as a child process on a thread with a
+/// stack of that size): every skeleton of the shallow space in all four classes, one value of every
+/// typed decoder, and the large-input family - each through every entry point and read-only operation.
+pub fn stack_cases() -> Vec<Case> {
     let mut out = Vec::new();
-    let tid: u128 = (ctx.seeded(1) as u128) & ((1u128 << 96) - 1);
+    for (i, toks) in engine_in::skeletons(2, 3).iter().enumerate() {
+        for class in [(i % 4) as u8] {
+            out.push(Case::new("entry", engine_in::render(class, (i as u16) & 0xFFF, 0x0A0B_0C0D_0E0F_1011_1213_1415, toks)).text(&["skeleton"]));
+        }
+    }
+    for k in ALL_KINDS {
+        for v in values::decode_values(k, Tier::Quick).into_iter().step_by(997).take(8) {
+            out.push(Case::new("typed", v).args(&[k.code() as i64]).text(&[k.name()]));
+        }
+    }
+    out.extend(large_family_tid(0x0102_0304_0506_0708_090A_0B0C));
+    out
+}
+
+/// Stack sizes of the probe ladder, in KiB; the property is judged at `STACK_BOUND_KIB`.
+pub const STACK_LADDER_KIB: [usize; 7] = [16, 24, 32, 48, 64, 96, 128];
+pub const STACK_BOUND_KIB: usize = 64;
+
+/// Run the probe family in a child process on a thread with `kib` KiB of stack; `Ok` if it completed.
+pub fn stack_probe_child(kib: usize) -> Result<(), String> {
+    let exe = std::env::current_exe().map_err(|e| e.to_string())?;
+    let out = std::process::Command::new(exe).arg("stackprobe").arg(kib.to_string()).output().map_err(|e| e.to_string())?;
+    if out.status.success() {
+        Ok(())
+    } else {
+        let err = String::from_utf8_lossy(&out.stderr);
+        Err(format!("{} {}", out.status, err.lines().filter(|l| l.contains("overflow") || l.contains("fatal")).collect::<Vec<_>>().join(" / ")))
+    }
+}
+
+fn large_family_tid(tid: u128) -> Vec<Case> {
+    let mut out = Vec::new();
     let filler_to = |o: usize, class: u8| -> Vec<u8> {
         // header + one 0xFF00 attribute so that the next attribute starts at offset o (o % 4 == 0, o >= 24)
         let mut b = wire::encode_header(class, 1, tid, 0);
@@ -352,6 +409,19 @@ fn large_family(ctx: &Ctx) -> Vec<Case> {
 pub fn run(ctx: &Ctx) -> Report {
     start_watchdog(P, ctx.tier, ctx.seed);
     let thorough = ctx.tier == Tier::Thorough;
+    // (f) stack probe: child processes run beside the sweeps below, collected at the end
+    let ladder: Vec<usize> = if thorough { STACK_LADDER_KIB.to_vec() } else { vec![16, 32, STACK_BOUND_KIB] };
+    let probes: Vec<(usize, std::thread::JoinHandle<Acc>)> = ladder
+        .iter()
+        .map(|kib| {
+            let kib = *kib;
+            (kib, std::thread::spawn(move || {
+                let mut a = Acc::default();
+                judge(&Case::new("stackprobe", vec![]).args(&[kib as i64]), &mut a);
+                a
+            }))
+        })
+        .collect();
     // (a) all short byte strings
     let max_short = ctx.tier.pick(2usize, 3usize);
     let n_short: u64 = (0..=max_short).map(|l| 256u64.pow(l as u32)).sum();
@@ -397,6 +467,35 @@ pub fn run(ctx: &Ctx) -> Report {
             acc
         })
         .reduce(Acc::default, |a, b| a.merge(b));
+    // (b2) every 16-bit value in the length field of an attribute header, inside a message whose own
+    // length field is consistent with the bytes present
+    let acc_b2 = (0..=0xFFFFu32)
+        .into_par_iter()
+        .fold(Acc::default, |mut acc, l| {
+            for typ in [0x8022u16, 0x0020, 0x0008, 0x8028] {
+                for (lead, present) in [(false, 8usize), (true, 24)] {
+                    let mut b = wire::encode_header(2, 1, 0x0102_0304_0506_0708_090a_0b0c, 0);
+                    if lead {
+                        b.extend(wire::encode_attr(0x0024, &[0, 0, 0, 9], 0));
+                    }
+                    b.extend_from_slice(&typ.to_be_bytes());
+                    b.extend_from_slice(&(l as u16).to_be_bytes());
+                    b.extend((0..present).map(|i| 0x30 + (i as u8 % 10)));
+                    let bl = b.len() - 20;
+                    wire::set_len(&mut b, bl);
+                    judge_w(&Case::new("entry", b.clone()).text(&["declared-length"]), &mut acc);
+                    judge_w(&Case::new("entry", b[20..].to_vec()).text(&["declared-length/raw-attribute"]), &mut acc);
+                }
+            }
+            acc
+        })
+        .reduce(Acc::default, |a, b| a.merge(b));
+    // (b3) every 16-bit code through the reason-phrase table
+    let mut acc_b2 = acc_b2;
+    for code in 0..=0xFFFFu16 {
+        let case = Case::new("reason", vec![]).args(&[code as i64]);
+        judge(&case, &mut acc_b2);
+    }
     // (c) skeleton space with single faults, all four classes
     let (n_full, n_small) = ctx.tier.pick((3, 4), (4, 5));
     let sk = engine_in::skeletons(n_full, n_small);
@@ -481,13 +580,21 @@ pub fn run(ctx: &Ctx) -> Report {
             acc
         })
         .reduce(Acc::default, |a, b| a.merge(b));
-    let acc = acc_a.merge(acc_b).merge(acc_c).merge(acc_d0).merge(acc_d).merge(acc_e);
+    let mut acc = acc_a.merge(acc_b).merge(acc_b2).merge(acc_c).merge(acc_d0).merge(acc_d).merge(acc_e);
+    let mut smallest_ok: Option<usize> = None;
+    for (kib, h) in probes {
+        let a = h.join().unwrap_or_default();
+        if a.outcomes.contains_key("stack probe completed") && smallest_ok.is_none() {
+            smallest_ok = Some(kib);
+        }
+        acc = acc.merge(a);
+    }
     Report {
         acc,
         exhaustive: true,
-        rule: "all byte strings up to the short bound into every entry point; 65536 type fields x 7 length fields x cookie ok/off x 3 buffer lengths; skeleton space x 4 classes with every single structural fault (shallow skeletons also with every value of every header / attribute-header byte and every single-bit flip); every typed decoder on its value space and on every type code; large-input family around the 16-bit boundary; on every accepted buffer all read-only operations, plain and under a TRACE subscriber; evaluations counts guarded calls, distinct_nontrivial counts accepted buffers that were fully inspected".into(),
-        bounds: json!({"short_max_len": max_short, "skeletons": n_sk, "classes": 4, "faults": if thorough { "single + truncate x length pairs" } else { "single" }, "watchdog_ms": 20000}),
-        assumptions: vec!["an abort (stack overflow, allocation failure) kills the checker and is reported as machinery failure, not as a verdict".into()],
+        rule: "all byte strings up to the short bound into every entry point; 65536 type fields x 7 length fields x cookie ok/off x 3 buffer lengths; every 16-bit declared attribute length x 4 types x 2 layouts; skeleton space x 4 classes with every single structural fault (shallow skeletons also with every value of every header / attribute-header byte and every single-bit flip); every typed decoder on its value space and on every type code; large-input family around the 16-bit boundary; on every accepted buffer all read-only operations, plain and under a TRACE subscriber; a probe family (shallow skeletons, one value per typed decoder, the large-input family) through every entry point and read-only operation in child processes on threads with 16 / 32 / 64 KiB of stack (thorough: 16..128 KiB), judged at 64 KiB; evaluations counts guarded calls, distinct_nontrivial counts accepted buffers that were fully inspected".into(),
+        bounds: json!({"short_max_len": max_short, "skeletons": n_sk, "classes": 4, "faults": if thorough { "single + truncate x length pairs" } else { "single" }, "watchdog_ms": 20000, "stack_probe_kib": ladder, "smallest_stack_completed_kib": smallest_ok, "stack_bound_kib": STACK_BOUND_KIB}),
+        assumptions: vec!["an abort (stack overflow, allocation failure) in the sweeps themselves (2 MiB stacks) kills the checker and is reported as machinery failure, not as a verdict; stack exhaustion is judged by the probe in child processes, at a 64 KiB stack - an interpretive bound: half of musl's 128 KiB default thread stack, four times what the unchanged library + harness frames need".into()],
         ..Default::default()
     }
 }
